@@ -404,6 +404,10 @@ func (s *summarizer) build(v ssa.Value) *Term {
 	case *ssa.Global:
 		return tSym("global:" + x.Pkg.Pkg.Name() + "." + x.Name())
 	case *ssa.Function:
+		if x.Parent() != nil && x.Parent() == s.f && x.Synthetic == "" {
+			// a function literal without captured variables: compared like a closure (its body is part of this function)
+			return &Term{Op: "call", Val: fmt.Sprintf("closure#%d", s.ord.closOrd(x))}
+		}
 		return tSym("func:" + s.calleeName(x))
 	case *ssa.Builtin:
 		return tSym("builtin:" + x.Name())
@@ -600,8 +604,8 @@ func (s *summarizer) fieldTerm(base ssa.Value, field int, ty types.Type) *Term {
 func (s *summarizer) allocTerm(a *ssa.Alloc, ref bool) *Term {
 	elem := derefType(a.Type())
 	init, late, escapes := s.allocStores(a)
-	if len(init) == 0 && len(late) == 1 && late[0].field == "" {
-		// single whole-value assignment (address-taken range variable / local copy): the variable is its value
+	if len(init) == 0 && len(late) == 1 && late[0].field == "" && s.definesBeforeUse(a, late[0].st) {
+		// single whole-value assignment that precedes every use (address-taken range variable / local copy): the variable is its value
 		return s.term(late[0].st.Val)
 	}
 	if ref || escapes || len(late) > 0 {
@@ -632,6 +636,41 @@ func (s *summarizer) allocTerm(a *ssa.Alloc, ref bool) *Term {
 		return tSym(name)
 	}
 	return s.structFromStores(a, init, elem)
+}
+
+// definesBeforeUse: the store dominates every other use of the allocation (so no use can see the zero value or a value of
+// another iteration).
+func (s *summarizer) definesBeforeUse(a *ssa.Alloc, st *ssa.Store) bool {
+	if a.Referrers() == nil {
+		return true
+	}
+	pos := func(in ssa.Instruction) int {
+		for i, x := range in.Block().Instrs {
+			if x == in {
+				return i
+			}
+		}
+		return -1
+	}
+	for _, r := range *a.Referrers() {
+		if r == ssa.Instruction(st) {
+			continue
+		}
+		if _, isDbg := r.(*ssa.DebugRef); isDbg {
+			continue
+		}
+		rb, sb := r.Block(), st.Block()
+		if rb == sb {
+			if pos(r) < pos(st) {
+				return false
+			}
+			continue
+		}
+		if !sb.Dominates(rb) {
+			return false
+		}
+	}
+	return true
 }
 
 type allocStore struct {
@@ -1486,7 +1525,7 @@ func (s *summarizer) isInitStore(st *ssa.Store) bool {
 		}
 	}
 	// a single per-iteration copy into an otherwise unwritten local (range variable): part of the value flow
-	if len(init) == 0 && len(late) == 1 && late[0].st == st && late[0].field == "" {
+	if len(init) == 0 && len(late) == 1 && late[0].st == st && late[0].field == "" && s.definesBeforeUse(a, st) {
 		return true
 	}
 	return false
